@@ -3,26 +3,44 @@
    check, doExpr, doSet, suffix, final sort + Rearrange) and the template semantics [tden] / [eval_pred].
    Lemmas: Syn/Templates_proofs.v. *)
 From Coq Require Import List ZArith Bool.
-From TM Require Import Syn.Expr Syn.Expand Syn.ExtLang Syn.Templates Syn.Templates_proofs.
+From TM Require Import Syn.Expr Syn.Expand Syn.ExtLang Syn.Expand_global Syn.Templates Syn.Templates_proofs Syn.Templates_global.
 Import ListNotations.
 Local Open Scope Z_scope.
 
-(* FULL STATEMENT (not proved as one theorem):
-     instantiate_preserves: derives (instantiate M) (inst X args) w <-> tlang M X (bind args) w, inputs at defaults.
-   PROVED below, universally:
-     - predicate evaluation (!, &&, ||, ==, != as Not/And/Or/Equals) of the instantiator is the declarative one;
-     - for EVERY expression of a template (explicit and propagated arguments, conditionals in choices,
-       nested and lone conditionals, lists, optionals, lookaheads) and every environment: the expression
-       written by doExpr denotes exactly the template denotation [tden] under that environment, for every
-       interpretation in which instance k means (its nonterminal, its bound arguments) — the key step of
-       instantiate_preserves;
-     - no_fatal for predicates and argument resolution under a decidable boundness condition.
-   MISSING: the least-fixpoint gluing over all instances, the final sort/Rearrange (covered by the exact
-   correspondence), PropagateLookaheads (lookahead flags: Tier 2, exercised only end to end).
+(* FULL STATEMENT: derives (instantiate M) (inst X args) w <-> tlang M X (bind args) w, inputs at defaults.
+   PROVED: C14_instantiate_correct is this statement for the model [instantiate] of syntax.Instantiate as a
+   whole (entry points, instance work list, doExpr, names, sort by (nonterminal, suffix), Rearrange): every
+   instance k = (nonterminal, bound arguments) has, in the instantiated table, exactly the language its template
+   has under these arguments; both languages are least solutions (Knaster-Tarski): [tlfp] over pairs
+   (nonterminal, arguments) with the template denotation [tden], [lfp] over the instantiated table with [den].
+   An input is the instance (input nonterminal, no arguments).  The side conditions are one boolean,
+   [inst_checks] (no Fatal branch, instances pairwise different, the sort permutation is a permutation,
+   references in range), evaluated by ./check on every generated model.
+   Also proved: the instantiator's predicate evaluation is the declarative one; no_fatal for bound
+   predicates/arguments; the per-expression theorem for doExpr (suffix _partial).
+   NOT PROVED / NOT MODELLED: that [inst_checks] holds for every well-formed model; PropagateLookaheads
+   (lookahead flags); the bridge from [lfp] to [Derive.derives] is in Props/C13.v for flat tables (the output of
+   Instantiate still contains the extended notation, it is the input of Expand).
    READING of disabled alternatives (pinned by syntax/templates_test.go, `F<T>: a ([T] b) a` => `F: a a`):
    a disabled alternative of a choice is removed; a group left without alternatives and a conditional that
-   is not an alternative of a choice match the empty string.  Under the stricter reading "no alternative =
-   no string" the implementation differs on such groups (see notes/design-C14.md). *)
+   is not an alternative of a choice match the empty string (see notes/design-C14.md). *)
+
+(* Instantiate as a whole *)
+Theorem C14_instantiate_correct :
+  forall setden fuel m,
+    m_params m <> [] -> inst_checks fuel m = true -> 0 <= nterms m ->
+    let st := snd (inst_loop fuel (nterms m) (m_nonterms m) O (inst_start m) []) in
+    forall k cur, nth_error (is_list st) k = Some cur -> forall w,
+      tlfp (nterms m) setden (m_nonterms m) (nterms m + i_nt cur) (i_sig cur) w <->
+      lfp (nterms m) setden (map val3 (tr_nonterms (instantiate fuel m)))
+          (nterms m + Z.of_nat (nth k (inst_perm m (is_list st)) O)) w.
+Proof. exact instantiate_correct. Qed.
+
+(* the template language is a solution of the template equations *)
+Theorem C14_template_language_is_a_solution :
+  forall T setden nts Y sg w,
+    tlfp T setden nts Y sg w <-> tden T (tlfp T setden nts) setden (inst_env (mkInst (Y - T) sg)) (tvalue T nts Y) w.
+Proof. exact tlfp_fixpoint. Qed.
 
 Theorem C14_predicate_evaluation :
   forall e p b, check_pred (Some e) p = (b, false) -> b = eval_pred e p.
@@ -66,6 +84,13 @@ Example C14_example :
   /\ pred_bound [(0, s_true); (1, s_false)] (PAnd [PEq 0 s_true; PNot (PEq 1 s_true)]) = true.
 Proof. vm_compute. repeat split; reflexivity. Qed.
 
+Example C14_example_checks : inst_checks 100 ex_tm = true /\ m_params ex_tm <> [] /\
+  is_list (snd (inst_loop 100 (nterms ex_tm) (m_nonterms ex_tm) O (inst_start ex_tm) [])) =
+    [mkInst 0 []; mkInst 1 [(0, s_true); (1, s_false)]; mkInst 1 [(0, s_false); (1, s_false)]].
+Proof. split; [vm_compute; reflexivity|]. split; [discriminate | vm_compute; reflexivity]. Qed.
+
+Print Assumptions C14_instantiate_correct.
+Print Assumptions C14_template_language_is_a_solution.
 Print Assumptions C14_predicate_evaluation.
 Print Assumptions C14_instantiate_preserves_partial.
 Print Assumptions C14_no_fatal_partial.
